@@ -71,6 +71,21 @@ func main() {
 		}
 		os.Exit(0)
 	}
+	if name == "inspect" && len(os.Args) > 4 {
+		// child process of the crash-image inspection (cwd = the image): h inspect <db> <outfile> <tables|-> <probes...>
+		hx.Quiet()
+		var tables, probes []string
+		if os.Args[4] != "-" {
+			for _, t := range strings.Split(os.Args[4], ",") {
+				tables = append(tables, unhex(t))
+			}
+		}
+		for _, p := range os.Args[5:] {
+			probes = append(probes, unhex(p))
+		}
+		inspectChild(os.Args[2], os.Args[3], tables, probes)
+		os.Exit(0)
+	}
 	if name == "initstorage-images" && len(os.Args) > 2 {
 		// the same, leaving a copy of data/ in <dir>/<n> immediately before every page write and
 		// header write of the flush that ends recovery, and the event list in <dir>/order.txt
